@@ -17,6 +17,22 @@ CLAIMED = {
          "max-msg-size 3 / max-body-size 14 and streams up to 10/20 bytes (config constants chosen small, sizes symbolic); IDENTIFY option ranges, AUTH, SUB success path, TLS and heartbeats are not covered here; 'other clients unaffected' is reduced to panic-freedom of the per-connection handlers.", "5 (C09)"),
  "C15": ("nsqlookupd's real IOLoop over any ASCII byte stream up to 6/8 bytes, IDENTIFY with any 4-byte size and following bytes (never panics, nonsense sizes/truncated/undecodable bodies are fatal E_BAD_BODY and register nothing), required-field check via the json contract model, and for every command of a second connection (any keyword/params/state): registrations of the first connection intact, documented error code, no panic.",
          "Bytes >= 0x80 in the command line (std UTF-8 path) and allocations above 6 bytes are cut as outside the claim (an oversized allocation preceding the refusal is not flagged); HTTP handlers are covered under C14; encoding/json is a contract model.", "5 (C15)"),
+ "C03": ("Readiness predicate for every counter value, RDY range for every uint64, ONE iteration of the real delivery pump (messagePump loop-step) from an arbitrary loop-head state (a message is written only if the connection was ready at the top of that iteration, at most one per iteration, registered in flight before the write, attempts+1), FIN counters through the real handler, and topic pause against the real topic pump goroutine under all interleavings within the preemption bound (paused before or after Start).",
+         "Loop-step covers one iteration from the stated state space (RDY/in-flight <= 3, one waiting message); output-buffer timing and competing consumers > 1 are outside; native replay of the pump harness reaches the loop-head state through the real entry (subscription event).", "5 (C03)"),
+ "C05": ("Channel close from any valid state (the backend receives exactly the unfinished messages byte-identical, once), topic close against the real pump thread, metadata round trip through the json contract model (non-ephemeral topics/channels/paused flags restored, every restored topic started), and close racing scans/REQ/publish under all interleavings within the preemption bound (every owed or acknowledged message is on disk).",
+         "go-diskqueue and the process restart itself are replaced by a FIFO stub contract; two shutdown windows are genuine defects recorded as known findings (REQ 0 racing close, publish racing topic close); the consumer-pump window is covered only by the pump loop-step of C03.", "5 (C05)"),
+ "C08": ("Empty/Delete step from any valid channel state, ephemeral channel life cycle (no disk backend, overflow dropped, delete callback exactly once), and Channel.Empty racing FIN/REQ/TOUCH/timeout scan in two threads under every interleaving within the preemption bound: no panic, no deadlock, structures consistent and nothing left at quiescence. Counterexample schedules are imposed on the real code natively (instrumented copy + baton scheduler).",
+         "Ten interleavings where Empty is not atomic with respect to answers/scans are genuine nsq defects listed in known_findings.json (discarded messages resurrected, consumer in-flight count -1, map/heap inconsistency); the crash among them was repaired (fix f3573c0). Topic/channel deletion racing creation and SUB is not covered yet.", "5 (C08)"),
+ "C13": ("Ledger over 1 (quick) / 2 (thorough) arbitrary operations (publish with backend failure, deferred publish, delivery, FIN/REQ for any id by either of two consumers, both scans, empty) from any valid channel state: received == depth + in-flight + deferred + finished + emptied, per-consumer in-flight count == messages it holds and never negative; topic message_count/message_bytes == what was acknowledged incl. partial multi-publish failure; GetStats wiring and topic/channel filters for symbolic counters.",
+         "Text rendering (printStats) and statsd are outside; producer client stats (sync.Map of connections) not covered; concurrency of counters is covered under C08.", "5 (C13)"),
+ "C16": ("readResponseBounded for every int32 size prefix, lookupPeer.Command with one fault bit per I/O call, connectCallback (REGISTER set == live topics/channels), the real lookupLoop goroutine under churn, faults, two peers and reconfiguration against a scripted nsqlookupd, GetTopic pre-creating every channel its lookupds know before the first message, and delete-then-recreate notification ordering.",
+         "Loop harnesses explore one canonical run-to-block schedule (races only in NotifyOrderRace); convergence time and real sockets are outside; the Notify reordering race is a genuine defect recorded as known finding.", "5 (C16)"),
+ "C17": ("All ten state-changing nsqadmin actions through the real handlers and through the route table recorded from NewHTTPServer: without an admin identity 403 and zero upstream interactions; with one (or no admin list) exactly the requested action on every relevant upstream; identity decision over symbolic admin lists / header names / look-alike values; /config CIDR gate for any IPv4 client and network before the option is read or written; read-only views never 403.",
+         "httprouter dispatch, header canonicalisation beyond three header names, non-ASCII identities, IPv6 CIDRs and notification POSTs are outside; clusterinfo methods are recorders symbolically and loopback servers natively.", "5 (C17)"),
+ "C18": ("Union/dedup/sorting of every clusterinfo fetch function against scripted upstreams (any subset failing: plain error / partial result + PartialErr / nil), field-wise sums of TopicStats.Add/ChannelStats.Add from arbitrary aggregate states, GETV1 contract, nsqadmin views (502 only when a whole stage got no answer, warning iff something failed, totals == sums), fetch goroutine interleavings, and garbage upstream JSON shapes that must not crash nsqadmin.",
+         "JSON syntax-level malformation is only modelled as a GETV1 error; counters above 2^63-1, float percentile arithmetic and the graphite handler are outside; encoding/json is a contract model.", "5 (C18)"),
+ "C20": ("to_nsq's real readAndPublish loop over any bytes/delimiter/chunking (records == reference split, byte-exact, in order, to every destination, final unterminated record whole, publish error stops), nsq_to_nsq HandleMessage + responder goroutines (FIN only after an accepted publish, REQ otherwise, exactly one response), nsq_to_http POST/GET publishers in modes all/round-robin/hostpool for any status or transport error.",
+         "go-nsq's connection/backoff machinery and hostpool internals are contracts (stubs); a down destination stays down within one run.", "5 (C20)"),
 }
 NA_REASON = "no check registered yet in this build of /verif (solver-based harness not written or not yet clean on the unchanged tree); see DESIGN.md section 5 for the planned encoding"
 props = [json.loads(l) for l in open(os.path.join(V, "properties.jsonl"))]
